@@ -4,7 +4,7 @@
    it denotes, `ok` the invariant "a Small holds an i64" (Big is NOT normalised: Big 3 is legal).
    The right-hand sides mention only `val`, so every statement is also independence from the
    representation of the operands and of the result. *)
-From Coq Require Import ZArith List Bool Lia Znumtheory.
+From Coq Require Import ZArith List Bool Lia Znumtheory Sorted.
 From NV Require Import Common.Outcome Common.MachineInt Num.NInt Num.NIntSpec Num.NInt_proofs Num.NIntPrime_proofs Num.NIntFactor_proofs.
 Import ListNotations.
 Open Scope Z_scope.
@@ -224,6 +224,12 @@ Theorem C06_factorize_total : forall a, exists l, lazy_factorize (fact_fuel a) a
   (a = 0 -> l = []) /\ (a <> 0 -> fprod l = a /\ Forall good_factor l).
 Proof. exact lazy_factorize_total. Qed.
 Print Assumptions C06_factorize_total.
+
+(* the bases come out in strictly increasing order: -1 (if any), then the primes *)
+Theorem C06_factorize_increasing : forall fuel a l, lazy_factorize fuel a = Ok l ->
+  StronglySorted (fun x y => fst x < fst y) l.
+Proof. exact lazy_factorize_increasing. Qed.
+Print Assumptions C06_factorize_increasing.
 
 Theorem C06_factorize_no_panic : forall fuel a, lazy_factorize fuel a <> Panic.
 Proof. exact lazy_factorize_no_panic. Qed.
